@@ -212,11 +212,12 @@ fn parse_nd_rtr_options(buf: &mut Buffer) -> Result<NDOptions, Error> {
                 use std::convert::{TryFrom as _, TryInto as _};
                 let scaled_lifetime_plc = u16::from_be_bytes(value[0..=1].try_into().unwrap());
                 let lifetime = Duration::from_secs((scaled_lifetime_plc & !7).into());
-                let prefixlen = (scaled_lifetime_plc & 0x07) * 8 + 32;
+                let prefixlen = pref64_plc_to_prefixlen((scaled_lifetime_plc & 0x07) as u8)
+                    .ok_or(Error::InvalidPacket)?;
                 let ip_octets =
                     <[u8; 16]>::try_from([&value[2..], &[0, 0, 0, 0]].concat()).unwrap();
                 let prefix = std::net::Ipv6Addr::from(ip_octets);
-                options.add_option(NDOptionValue::Pref64((lifetime, prefixlen as u8, prefix)));
+                options.add_option(NDOptionValue::Pref64((lifetime, prefixlen, prefix)));
             }
             (MTU, value) => {
                 if value.len() != 8 - 2 {
@@ -372,6 +373,20 @@ impl SerialiseInto for &str {
     }
 }
 
+/* RFC8781 Section 4: Prefix Length Code. */
+const PREF64_PREFIX_LENGTHS: [u8; 6] = [96, 64, 56, 48, 40, 32];
+
+pub fn pref64_prefixlen_to_plc(prefixlen: u8) -> Option<u16> {
+    PREF64_PREFIX_LENGTHS
+        .iter()
+        .position(|l| *l == prefixlen)
+        .map(|plc| plc as u16)
+}
+
+fn pref64_plc_to_prefixlen(plc: u8) -> Option<u8> {
+    PREF64_PREFIX_LENGTHS.get(usize::from(plc)).copied()
+}
+
 /* Durations that do not fit their wire field are sent as the largest value the field can hold
  * (which for the 32 bit lifetimes means "infinity"), they must never wrap around.
  */
@@ -463,11 +478,19 @@ fn serialise_router_advertisement(a: &RtrAdvertisement) -> Vec<u8> {
                 v.serialise(&dnssl.v);
             }
             NDOptionValue::Pref64((lifetime, prefixlen, prefix)) => {
+                /* Prefix lengths other than those in the table cannot be expressed, the
+                 * configuration parser does not accept them.
+                 */
+                let Some(plc) = pref64_prefixlen_to_plc(*prefixlen) else {
+                    log::warn!("Not advertising PREF64 with invalid prefix length {prefixlen}");
+                    continue;
+                };
+                /* The scaled lifetime is 13 bits, in units of 8 seconds. */
+                let scaled_lifetime = std::cmp::min(lifetime.as_secs() / 8, 0x1fff) as u16;
                 v.serialise(PREF64.0);
                 v.serialise(2_u8);
-                let scaled_lifetime = (lifetime.as_secs() / 8) as u16;
-                let plc = ((prefixlen - 32) / 8) as u16;
                 v.serialise((scaled_lifetime << 3) | plc);
+                let prefix = mask_prefix(prefix, *prefixlen);
                 for i in 0..12 {
                     v.serialise(prefix.octets()[i])
                 }
